@@ -63,6 +63,23 @@ def _vec_of_tuples(b):
     return out
 
 
+def closures_of(ctx, b):
+    """closure bodies created by function b: its own, those of helpers that E0b spliced into it, and their closures"""
+    owners = {b.path}
+    for hp, callers in getattr(ctx.facts, 'splice_report', []):
+        if b.path in callers:
+            owners.add(hp)
+    out = []
+    for _ in range(4):
+        new = [c for c in ctx.facts.bodies.values() if c.kind == 'closure' and c.rec.get('parent') in owners and c.path not in owners]
+        if not new:
+            break
+        for c in new:
+            owners.add(c.path)
+            out.append(c)
+    return out
+
+
 def registry_body(ctx, name):
     """the body that builds the registry `name`: the initialiser of a lazy_static!, or the value of a `const` / `static` item of
     that name (an array instead of a lazily built Vec)"""
